@@ -14,6 +14,7 @@
 #include <cstdlib>
 
 #include "core.h"
+#include "node.h"
 #include "vf.h"
 
 #if defined(__SANITIZE_ADDRESS__)
@@ -26,6 +27,8 @@
 #endif
 
 const char *vf_name = "c16_cxx";
+
+using namespace mpt;
 
 struct dummy
 {
@@ -40,10 +43,10 @@ struct wide : public mpt::identifier
 };
 typedef mpt::item<dummy> item_t;
 
-enum { KPlain, KItem, KWide16, KWide48, KWide112, KWide240, KCopied, KKinds };
-static const char *kindname[KKinds] = { "identifier", "item<T>", "wide<16>", "wide<48>", "wide<112>", "wide<240>", "identifier(copy)" };
-static const unsigned kindcap[KKinds] = { 12, 20, 28, 60, 124, 252, 12 };
-#define NSTOR 6   /* storages enumerated by the grid (copy construction is an operation) */
+enum { KPlain, KItem, KWide16, KWide48, KWide112, KWide240, KNodePlain, KNodeExt, KCopied, KKinds };
+static const char *kindname[KKinds] = { "identifier", "item<T>", "wide<16>", "wide<48>", "wide<112>", "wide<240>", "node(plain)", "node(extended)", "identifier(copy)" };
+static const unsigned kindcap[KKinds] = { 12, 20, 28, 60, 124, 252, 12, 84, 12 };
+#define NSTOR 8   /* storages enumerated by the grid (copy construction is an operation) */
 
 enum { SUnset, SText, SBinary };
 static const char *statename[] = { "unset", "text", "binary" };
@@ -52,7 +55,9 @@ static const char *statename[] = { "unset", "text", "binary" };
 struct handle {
 	int kind;
 	mpt::identifier *id;
+	mpt::node *nd;                 /* node kinds: the identifier is the node's name */
 	void *block; size_t blocksize;
+	int release_mode;
 	unsigned max;
 	int state;
 	size_t n;
@@ -87,6 +92,7 @@ static std::string hdesc(const handle *h)
 	snprintf(b, sizeof(b), "%s[max=%u %s n=%zu]", kindname[h->kind], h->max, statename[h->state], h->n);
 	return b;
 }
+static unsigned node_mode;          /* varies producer and way of destruction of node kinds */
 template <typename T> static mpt::identifier *construct(handle *h)
 {
 	h->blocksize = sizeof(T);
@@ -109,6 +115,17 @@ static handle *h_new(int kind, const handle *from = 0)
 	case KWide48: h->id = construct<wide<48> >(h); break;
 	case KWide112: h->id = construct<wide<112> >(h); break;
 	case KWide240: h->id = construct<wide<240> >(h); break;
+	case KNodePlain: case KNodeExt: {
+		/* both node producers of libmpt++: node::create() and the mpt_node_new() it provides */
+		static const size_t plain[] = { 0, 1, 12, 16, 89, 300 }, ext[] = { 17, 20, 40, 88 };
+		size_t req = kind == KNodePlain ? plain[(node_mode >> 3) % 6] : ext[(node_mode >> 3) % 4];
+		if (node_mode & 1) { vf_at("mpt_node_new"); vf_count("mpt_node_new", 1); h->nd = mpt_node_new(req); }
+		else { vf_at("node::create"); vf_count("node::create(size)", 1); h->nd = mpt::node::create(req); }
+		VF_CHECK(h->nd != 0, "cxx:node-create:null", "node of requested identifier size %zu: NULL", req);
+		h->release_mode = (node_mode >> 1) & 3;
+		node_mode += 3;
+		h->id = &h->nd->ident;
+		break; }
 	case KCopied:
 		h->blocksize = sizeof(mpt::identifier);
 		h->block = vf_xalloc(h->blocksize);
@@ -131,8 +148,59 @@ static void check_released(const char *op, const void *old, const mpt::identifie
 		vf_fail(key(op, "old-content-not-released"), "%s: block %p that held the previous long content is still allocated", ctx.c_str(), old);
 	}
 }
+/* the ways a node of libmpt++ goes away */
+enum { RDestroy, RParentClear, RParentDestroy, RDestructor };
+static const char *rname[4] = { "mpt_node_destroy", "mpt_node_clear(parent)", "mpt_node_destroy(grandparent)", "~node + free" };
+static void release_node(handle *h)
+{
+	const void *old = ext_ptr(h->id);
+	unsigned stored = raw_len(h->id);
+	std::string ctx = std::string(rname[h->release_mode]) + " of " + hdesc(h);
+	mpt::node *n = h->nd;
+	vf_log("%s", ctx.c_str());
+	if (old) {
+		vf_count("cxx-node:released-out-of-line-name", 1);
+		if (h->max == 12 && stored >= 13 && stored <= 16) vf_count("cxx-node:released-plain-stored-13..16", 1);
+	}
+	switch (h->release_mode) {
+	case RDestroy:
+		vf_at("mpt_node_destroy"); vf_count("cxx-node:destroy:mpt_node_destroy", 1);
+		VF_CHECK(!mpt_node_destroy(n), "cxx:node_destroy:refused", "%s: unlinked node not destroyed", ctx.c_str());
+		break;
+	case RParentClear: case RParentDestroy: {
+		/* parent carries an out-of-line name itself (13 characters on the 12 byte inline storage) */
+		vf_at("node::create"); vf_count("node::create(name)", 1);
+		mpt::node *top = mpt::node::create("root-of-tests"), *mid = mpt::node::create("m"), *sib = mpt::node::create("sibling-node-1");
+		VF_CHECK(top && mid && sib, "cxx:node-create:null", "node::create(name) returned NULL");
+		VF_CHECK(top->ident.equal("root-of-tests", 13) && sib->ident.equal("sibling-node-1", -1), "cxx:node-create:name", "node::create(name): name not stored");
+		const void *otop = ext_ptr(&top->ident), *osib = ext_ptr(&sib->ident);
+		/* public link fields: top -> mid -> (n, sib) */
+		top->children = mid; mid->parent = top;
+		mid->children = n; n->parent = mid; n->next = sib; sib->prev = n; sib->parent = mid;
+		if (h->release_mode == RParentClear) {
+			vf_at("mpt_node_clear"); vf_count("cxx-node:destroy:parent-clear", 1);
+			mpt_node_clear(mid);
+			check_released("node_clear", old, 0, ctx);
+			check_released("node_clear", osib, 0, ctx + " (sibling)");
+		} else {
+			vf_count("cxx-node:destroy:parent-destroy", 1);
+		}
+		vf_at("mpt_node_destroy");
+		VF_CHECK(!mpt_node_destroy(top), "cxx:node_destroy:refused", "%s: root not destroyed", ctx.c_str());
+		check_released("node_destroy", otop, 0, ctx + " (root)");
+		check_released("node_destroy", osib, 0, ctx + " (sibling)");
+		break; }
+	default:
+		vf_at("node::~node"); vf_count("cxx-node:destroy:destructor", 1);
+		n->~node();
+		free(n);
+	}
+	check_released(h->release_mode == RDestructor ? "node-destructor" : "node_destroy", old, 0, ctx);
+	h->id = 0; h->nd = 0;
+}
 static void h_release(handle *h)
 {
+	if (h->nd) { release_node(h); return; }
 	const void *old = ext_ptr(h->id);
 	std::string ctx = "~" + hdesc(h);
 	vf_at("identifier::~identifier"); vf_count("identifier::~identifier", 1);
@@ -554,12 +622,105 @@ static void case_history(vf_rng *r)
 	release_all();
 }
 
+/* ---------------------------------------------------------- node cases */
+/*
+ * Nodes of libmpt++ (node::create(), mpt_node_new() as provided by libmpt++):
+ * name of every length around the inline capacities given at creation, later by
+ * set_name or by assignment, optionally replaced, then the node goes away in one
+ * of four ways.  The block of an out-of-line name must be released with the
+ * node (release witness), and the case must end without leaked memory.
+ */
+static const size_t NODE_LENS[] = { 0, 1, 2, 3, 4, 5, 6, 7, 8, 9, 10, 11, 12, 13, 14, 15, 16, 17, 18, 19, 20, 21, 22, 23, 24, 82, 83, 84, 85, 86, 87, 88, 89, 255, 300, 4000 };
+#define NNODE_LENS (sizeof(NODE_LENS) / sizeof(*NODE_LENS))
+static uint64_t n_node() { return NNODE_LENS * 4 * 5 * 4; }
+static handle *adopt_node(mpt::node *n, size_t requested, const char *how)
+{
+	handle *h = &H[nh];
+	memset(h, 0, sizeof(*h));
+	h->sh = shadowmem[nh];
+	VF_CHECK(n != 0, "cxx:node-create:null", "%s: NULL", how);
+	h->nd = n;
+	h->id = &n->ident;
+	h->max = raw_max(h->id);
+	unsigned want = (requested > 16 && requested <= 88) ? 84 : 12;
+	VF_CHECK(h->max == want, "cxx:create:capacity", "%s (identifier size %zu): inline capacity %u, expected %u", how, requested, h->max, want);
+	h->kind = h->max == 12 ? KNodePlain : KNodeExt;
+	nh++;
+	return h;
+}
+static void case_node(uint64_t idx)
+{
+	static uint8_t tmp[SHMAX];
+	size_t L = NODE_LENS[idx % NNODE_LENS];
+	unsigned make = (idx / NNODE_LENS) % 4, change = (idx / (NNODE_LENS * 4)) % 5, gone = (idx / (NNODE_LENS * 20)) % 4;
+	static const char *makes[] = { "node::create(name, len)", "node::create(0) + set_name", "node::create(len + 1) + set_name", "mpt_node_new(len + 1) + set_name" };
+	static const char *changes[] = { "kept", "replaced by 13 characters", "replaced by 3 characters", "assigned from an identifier holding 14 characters", "replaced by 100 characters" };
+	handle *h;
+	transitions = 0; crosscopies = 0;
+	vf_fp_u64(0x16d00000 + idx);
+	gen_bytes(tmp, L, 9, 0);
+	switch (make) {
+	case 0: {
+		char *name = static_cast<char *>(vf_xalloc(L));
+		if (L) memcpy(name, tmp, L);
+		vf_at("node::create"); vf_count("node::create(name)", 1);
+		h = adopt_node(mpt::node::create(name, (int) L), L + 1, makes[make]);
+		vf_xfree(name, L);
+		h->state = SText; h->n = L;
+		memcpy(h->sh, tmp, L);
+		verify_all("node-create", makes[make]);
+		break; }
+	case 1:
+		vf_at("node::create"); vf_count("node::create(size)", 1);
+		h = adopt_node(mpt::node::create(size_t(0)), 0, makes[make]);
+		op_set_text(h, tmp, L, (L & 1) != 0);
+		break;
+	case 2:
+		vf_at("node::create"); vf_count("node::create(size)", 1);
+		h = adopt_node(mpt::node::create(L + 1), L + 1, makes[make]);
+		op_set_text(h, tmp, L, (L & 1) != 0);
+		break;
+	default:
+		vf_at("mpt_node_new"); vf_count("mpt_node_new", 1);
+		h = adopt_node(mpt_node_new(L + 1), L + 1, makes[make]);
+		op_set_text(h, tmp, L, (L & 1) != 0);
+	}
+	h->release_mode = gone;
+	vf_at("mpt_node_ident"); vf_count("mpt_node_ident", 1);
+	VF_CHECK(mpt_node_ident(h->nd) == reinterpret_cast<const char *>(raw_data(h->id)), "cxx:node_ident:text", "%s: mpt_node_ident() does not return the stored name", makes[make]);
+	switch (change) {
+	case 1: gen_bytes(tmp, 13, 21, 0); op_set_text(h, tmp, 13, true); break;
+	case 2: gen_bytes(tmp, 3, 22, 0); op_set_text(h, tmp, 3, false); break;
+	case 3: {
+		handle *src = h_new(KPlain);
+		gen_bytes(tmp, 14, 23, 0);
+		op_set_text(src, tmp, 14, true);
+		op_assign(h, src);
+		break; }
+	case 4: gen_bytes(tmp, 100, 24, 0); op_set_text(h, tmp, 100, false); break;
+	}
+	op_compare(h, 0);
+	bool longname = is_ext(h->id);
+	if (longname) vf_nontrivial();
+	if (idx % 487 == 11) vf_sample("node: %s with %zu characters (inline capacity %u), name %s, then %s", makes[make], L, h->max, changes[change], rname[gone]);
+	/* the node first: the plain identifier of case 3 lives on after it */
+	h_release(h);
+	release_all();
+	vf_at("leak-check"); vf_count("monitor:node-leak-check", 1);
+	if (vf_leak_check()) {
+		vf_fail("cxx:node:leaked-memory", "%s with %zu characters, name %s, then %s: LeakSanitizer finds unreachable memory after the node is gone", makes[make], L, changes[change], rname[gone]);
+	}
+}
+
 static uint64_t n_hist() { return vf_thorough ? 300000 : 8000; }
-uint64_t vf_cases(void) { return n_grid() + n_hist(); }
+uint64_t vf_cases(void) { return n_grid() + n_hist() + n_node(); }
 
 void vf_case(uint64_t idx, vf_rng *r)
 {
 	nh = 0;
+	node_mode = (unsigned) (idx * 7);
 	if (idx < n_grid()) { case_grid(idx); return; }
-	case_history(r);
+	idx -= n_grid();
+	if (idx < n_hist()) { case_history(r); return; }
+	case_node(idx - n_hist());
 }
